@@ -130,17 +130,25 @@ impl Thread {
         self.state = State::Runnable { unparked };
     }
 
-    /// Consumes the saved unpark, if any. Called by `park`.
-    pub(crate) fn consume_unpark(&mut self) {
-        debug_assert!(self.is_runnable());
+    /// Consumes the saved unpark, if any, and returns whether there was one.
+    /// Called by `park`.
+    pub(crate) fn consume_unpark(&mut self) -> bool {
+        let unparked =
+            self.pending_unpark || matches!(self.state, State::Runnable { unparked: true });
 
-        if matches!(self.state, State::Runnable { unparked: true }) {
+        if unparked {
             // Synchronize memory with the unparkers
             let unparkers = self.unpark_causality;
             self.causality.join(&unparkers);
+
+            self.pending_unpark = false;
+
+            if self.is_runnable() {
+                self.state = State::Runnable { unparked: false };
+            }
         }
 
-        self.state = State::Runnable { unparked: false };
+        unparked
     }
 
     /// Returns `true` if the thread is blocked in `park` (as opposed to being
